@@ -164,7 +164,10 @@ def gen_and_validate(jobs, module="TraceMain.tla", parallel=8):
     def one(job):
         prefix = f"{d}/{job['name']}"
         st = run_harness(job["args"] + ["--out", prefix])
-        viols, drifts, n, wall = run_trace(module, prefix + ".ndjson")
+        viols, drifts, n, wall = run_trace(job.get("module", module), prefix + ".ndjson", heap=job.get("heap", "3g"))
+        if job.get("kind") == "sched":
+            st = dict(histories=st["schedules"], events=st["schedules"], builds_ok=0, builds_err=0, panics=0, nontrivial_builds=0,
+                      distinct_forests=0, first_no=0, exhaustive_configs=st.get("exhaustive_configs", 0), configs=st.get("configs", 0))
         return dict(job=job, stats=st, viols=viols, drifts=drifts, lines=n, wall=wall, prefix=prefix)
 
     with ThreadPoolExecutor(max_workers=parallel) as ex:
